@@ -14,7 +14,7 @@ BOUNDS = {
     "quick": {"types": "all 42 non-Output types, stand-alone synth context; clone() for 6 seeded types; project-vs-synth writer equality for 6 seeded types",
               "controllers/options": "as C01 (one seeded enum symbolic, one seeded unit member)", "arrays": "all elements symbolic for length <= 32; 8 positions {0,1,127,128,254,255,last,seeded} for 128/256/257-element arrays",
               "vorbis": "byte strings of length 0..4, every byte symbolic", "FMX custom waveform": "12 concrete float32 edge values (enumeration, not solver: struct float packing is realised)"},
-    "thorough": {"types": "all 42 in synth context and clone()", "arrays": "32 seeded positions per long array, vorbis length 0..8", "controllers/options": "every enum symbolic in turn, every unit member"},
+    "thorough": {"types": "all 42 in synth context and clone()", "arrays": "16 seeded positions per long array, vorbis length 0..8", "controllers/options": "every enum symbolic in turn, every unit member"},
 }
 OUTSIDE = ["array lengths other than the class's declared length", "float payload values beyond the listed constants", "MetaModule and Sampler payloads (C15, C16)",
            "x/y/layer/visualization in synth files (documented as not stored there)"]
@@ -57,6 +57,9 @@ def module_obs(tier, rnd, ctx, types, tag):
             chunks = modgen.pack(items, max_forks=16, max_params=32)
             for ci, ch in enumerate(chunks):
                 g = modgen.render(items, ch, rnd)
+                fk_ = 1
+                for i_ in ch:
+                    fk_ *= max(1, items[i_].forks)
                 body = f"""
     mod = {cls_expr(mt)}()
 {g.code(4)}
@@ -68,7 +71,7 @@ def module_obs(tier, rnd, ctx, types, tag):
                 obs.append(Ob(f"{tag}.{mt}.v{vi}.s{ci}", build(g.params, body, setup=SETUP, extra_pre=g.pre),
                               f"{mt} {'wrapped in a synth, saved and loaded' if ctx == 'synth' else 'cloned'}: same type, controller values, options, MIDI bindings, common settings",
                               group=tag, shape=f"{ctx}({mt}); values not listed as symbolic hold seeded in-domain constants; " + "; ".join(g.notes),
-                              symbolic=", ".join(p_[0] for p_ in g.params), timeout=240))
+                              symbolic=", ".join(p_[0] for p_ in g.params), timeout=max(240, min(900, 25 * fk_))))
     return obs
 
 
@@ -92,7 +95,7 @@ ARRAYS = [  # type, attribute, element domain (lo, hi), struct width
 def payload_obs(tier, rnd):
     from rv.modules import MODULE_CLASSES
     obs = []
-    k = 8 if tier == "quick" else 32
+    k = 8 if tier == "quick" else 16   # (32 measured inconclusive for MultiSynth.np_curve: the writer compares the list with its default, one fork per symbolic element, twice)
     for ctx in (("synth",) if tier == "quick" else ("synth", "clone")):
         for mt, attr, lo, hi in ARRAYS:
             cls = MODULE_CLASSES[mt]
@@ -117,7 +120,7 @@ def payload_obs(tier, rnd):
             params = params + [R("again", lo, hi)]
             obs.append(Ob(f"payload.{ctx}.{mt}.{attr}", build(params, body, setup=SETUP), f"{mt}.{attr} ({n} elements) survives {ctx} round trip element by element",
                           group="payload", shape=f"{ctx}({mt}); positions {pos if len(pos) <= 12 else str(pos[:12]) + '...'} symbolic, the rest default",
-                          symbolic=f"{len(pos)} elements over {lo}..{hi}", timeout=240))
+                          symbolic=f"{len(pos)} elements over {lo}..{hi}", timeout=240 if tier == "quick" else 480))
         # SpectraVoice harmonic types through the public Harmonic API (enum per harmonic: seeded members, one symbolic)
         sp = rnd.randrange(16)
         body = f"""
@@ -261,6 +264,39 @@ def find_chunk(data, cid, start=0):
     return obs
 
 
+def exclusive_obs(tier, rnd):
+    """options declared mutually exclusive: assignment order decides which one is on (assigning either clears its partner), so the
+    per-type obligations above, which assign every option once in table order, never hold the FIRST member of a pair on.  Here the
+    last two assignments are symbolic (which member, which value): every reachable on/off state of the pair goes through the round trip."""
+    from rv.modules import MODULE_CLASSES
+    obs = []
+    for mt, cls in MODULE_CLASSES.items():
+        done = set()
+        for n, o in getattr(cls, "options", {}).items():
+            for other in o.exclusive_of:
+                key = tuple(sorted((n, other)))
+                if key in done:
+                    continue
+                done.add(key)
+                a, b_ = key
+                for ctx in ("synth", "clone"):
+                    body = f"""
+    mod = {cls_expr(mt)}()
+    for which, val in ((w1, x1), (w2, x2)):
+        if which:
+            mod.{a} = val
+        else:
+            mod.{b_} = val
+    s1 = snap_module(mod, groups={SYN_GROUPS})
+    {ctx_code(ctx)}
+    return same(s1, snap_module(m2, groups={SYN_GROUPS})) and m2.{a} == mod.{a} and m2.{b_} == mod.{b_}
+"""
+                    obs.append(Ob(f"exclusive.{ctx}.{mt}.{a}", build([B("w1"), B("x1"), B("w2"), B("x2")], body, setup=SETUP),
+                                  f"{mt}: every state of the mutually exclusive options {a} / {b_} reachable by two assignments (the state depends on the last assignment to each member only) survives the {ctx} round trip with all other settings",
+                                  group=ctx, shape=f"{ctx}({mt}), two assignments to the pair", symbolic="which option and which value, twice", timeout=240))
+    return obs
+
+
 def obligations(tier, seed):
     rnd = random.Random(seed)
     types = attachable_types()
@@ -268,5 +304,6 @@ def obligations(tier, seed):
     obs += module_obs(tier, rnd, "clone", types if tier == "thorough" else rnd.sample(types, 6), "clone")
     obs += payload_obs(tier, rnd)
     obs += writer_split_obs(tier, rnd, types if tier == "thorough" else rnd.sample([t for t in types if t not in ("MetaModule", "Sampler")], 6))
+    obs += exclusive_obs(tier, rnd)
     obs += concrete_obs()
     return obs
